@@ -21,8 +21,12 @@ CHECK = {
         {"fn": P + "vC33_batches", "cases": {"actors": [0, 2, 3], "grains": [0, 1, 3], "sent": [0, 1, 3]}, "cover_optional": ("some-sent-some-unsent",)},
         {"fn": P + "vC33_relocator4", "tiers": ("quick",), "replay": "model-only", "opts": {"substitute": RELOCATOR_SUBST, "stub": [M + "supervisor.NewSupervisor"]}},
         {"fn": P + "vC33_relocator5", "tiers": ("thorough",), "replay": "model-only", "opts": {"substitute": RELOCATOR_SUBST, "stub": [M + "supervisor.NewSupervisor"]}},
-        {"fn": P + "vC33_share", "replay": "model-only", "opts": {"substitute": SHARE_SUBST, "feas_from_iter": 1, "feasibility": "light", "unwind": 6, "loop_bounds": {P + "vC33_share": 16}}, "cases": {"actors": [0, 1, 2], "grains": [0, 1, 2]}},
+        {"fn": P + "vC33_share", "replay": "model-only", "opts": {"substitute": SHARE_SUBST, "feas_from_iter": 1, "feasibility": "light", "unwind": 6, "loop_bounds": {P + "vC33_share": 16}}, "cases_quick": {"shape": [10, 1]}, "cases_thorough": {"shape": [10, 1, 11, 20, 2]},
+         "cover_optional": ("actor-lost", "actor-taken-by-leader", "actor-delivered", "lazy-grain-released")},
     ],
+    # substituted / irrelevant functions are not traversed by vdump (keeps the IR small)
+    "stop": ["(*" + M + "internal/remoteclient.client).RelocateBatch", "(*" + P + "ReceiveContext).Spawn", "(*" + P + "ReceiveContext).Watch", "(*" + P + "ReceiveContext).Tell",
+             "(*" + P + "actorSystem).reportAbortedRelocation", P + "enqueueRelocation", "(*" + P + "actorSystem).releaseGrainForLazyRelocation", M + "supervisor.NewSupervisor"],
     "replace": [{"file": "actor/relocation_worker.go", "old": "defaultRelocationBatchSize = 500", "new": "defaultRelocationBatchSize = 1"}],
     "opts": {"unwind": 16, "birth_guard_stores": True, "map_range": "per_entry", "map_dedup": True, "feas_from_iter": 100},
     "explanation": "",
